@@ -50,12 +50,30 @@ Proof. vm_compute. reflexivity. Qed.
 
 (* ---- on a context whose index is stale (C14's defect b): every thread sees the same
    stale index, and so does the solo run ---- *)
-Definition stale1 : sstate := mkS [] [] (w_modules W).
+Definition stale1 : sstate := mkS [] [] (w_modules W) [].
 
 Example conc_guard_stale : conc_guard W stale1 [ftPA; parsePA; ftPA] = true /\ warm_b W stale1 = false.
 Proof. vm_compute. split; reflexivity. Qed.
 
 Example stale_values : solo_run W stale1 ftPA = ROk (Node (q "none") []).
+Proof. vm_compute. reflexivity. Qed.
+
+(* ---- untyped dict/JSON decoding (find_type_by_fields, local_names_match over every class of the
+   index, one of which cannot be built) concurrently with typed JSON work, on a cold context ---- *)
+Definition untyped_threads : list script :=
+  [decode_x; decode_x; encode vLeaf; names_broken; find_broken; decode_x].
+
+Example conc_guard_untyped : conc_guard W s0 untyped_threads = true.
+Proof. vm_compute. reflexivity. Qed.
+
+Example untyped_safe sched : conc_run W s0 untyped_threads sched = map (solo_run W s0) untyped_threads.
+Proof. destruct (context_safe W s0 untyped_threads sched conc_guard_untyped) as [H1 H2]. congruence. Qed.
+
+(* the schedule of the former ValueError (/repo c28ded8): both threads fail to build Broken before
+   either records it *)
+Example former_value_error_schedule :
+  conc_run W s0 [decode_x; decode_x] ([0; 0; 0; 1; 1; 1; 0; 1; 0; 1; 0; 0; 1; 1])%nat
+  = [solo_run W s0 decode_x; solo_run W s0 decode_x].
 Proof. vm_compute. reflexivity. Qed.
 
 (* ---- the cache-key defect, concurrently: both threads miss Leaf, both store, the one
